@@ -7,6 +7,8 @@ import DispatchVerif.Core.Utf8F
 import DispatchVerif.Core.Utf16P
 import DispatchVerif.Core.QueueP
 import DispatchVerif.Core.DataP
+import DispatchVerif.Core.TimerP
+import Driver.HeapChk
 /-! `dvdriver`: line-protocol driver over the Lean models — the same definitions the theorems are about.
     One operation per line in, one canonical result per line out; the C harnesses answer the same lines with
     the real library and the check diffs the two streams. -/
@@ -149,6 +151,9 @@ def handle (line : String) : String :=
     | _, _, _, _ => "bad-op"
   | ["X2", fi, fo, spec] => transform fi fo spec
   | "X" :: toks => runData toks
+  | ["CM", t, d, i, n, p] =>
+    let o := TimerP.computeMissed t.toNat! d.toNat! i.toNat! n.toNat! p.toNat!
+    s!"{o.data} {o.target} {o.deadline}"
   | ["AQ", idx, q, r] => toString (AttrP.withQos idx.toNat! q.toNat! r.toNat!)
   | ["AI", idx] => toString (AttrP.withInactive idx.toNat!)
   | ["AO", idx, b] => toString (AttrP.withOvercommit idx.toNat! (b = "1"))
@@ -177,4 +182,7 @@ partial def loop (h : IO.FS.Stream) (out : IO.FS.Stream) : IO Unit := do
   out.putStrLn (handle line)
   loop h out
 
-def main : IO Unit := do loop (← IO.getStdin) (← IO.getStdout)
+def main (args : List String) : IO UInt32 := do
+  match args with
+  | ["heap", path] => HeapChk.main path
+  | _ => loop (← IO.getStdin) (← IO.getStdout); return 0
